@@ -10,6 +10,7 @@ pub fn oracle(case: &[u8], obs: &mut Obs) -> Result<(), String> {
     let mut o = InputOpts::default();
     o.weights = [60, 25, 15];
     o.rich.max_gap = 32;
+    o.rich.many_sections = true;
     let inp = inputs::gen_input(&mut c, &o);
     let names: Vec<Vec<u8>> = inp.rich.as_ref().map(|r| r.dyn_names.clone()).unwrap_or_default();
     check(&inp.data, inp.mode, &inp.note, &names, &mut c, obs)
@@ -85,7 +86,18 @@ fn check(data_in: &[u8], mode: &'static str, note: &str, names: &[Vec<u8>], c: &
         }
     }
     let empty_table = fb.section_headers().map(|t| t.is_empty()).unwrap_or(false);
-    let (ops, shared) = stream::gen_ops(&mut c, nsec, nseg, data.len(), &names, 40);
+    let (mut ops, shared) = stream::gen_ops(&mut c, nsec, nseg, data.len(), &names, 40);
+    // by-name queries taken from the file's own section-name table (incl. queries with an interior NUL spanning two
+    // adjacent names), mixed into the history
+    for q in stream::file_name_queries(data, &mut c, 3) {
+        let at = c.idx(ops.len() + 1);
+        ops.insert(at, q);
+    }
+    // when the choice sequence ran out while the file was generated (large files consume it), the generated history
+    // degenerates; the linked-table accessors are then asked explicitly
+    if c.exhausted() || nsec >= 0xff00 {
+        ops.extend([Q::Symtab, Q::Dynsym, Q::Dynamic, Q::VerReq(1), Q::VerDef(1), Q::VerReq(2), Q::Symtab]);
+    }
     let mut first: Vec<Option<QR>> = vec![];
     let mut skipped = 0u64;
     let mut compared = 0u64;
@@ -145,6 +157,7 @@ fn check(data_in: &[u8], mode: &'static str, note: &str, names: &[Vec<u8>], c: &
     obs.label_if(intr != 0, "interrupting_reader");
     obs.label_if(fault_at.is_some(), "one_transient_io_error");
     obs.label_if(shared, "ranges_sharing_one_endpoint_or_repeated");
+    obs.label_if(nsec >= 0xff00, "0xff00_or_more_sections");
     obs.label_if(empty_table, "present_but_empty_section_table");
     if ops.len() >= 3 && shared {
         obs.nontrivial();
